@@ -1,6 +1,7 @@
 package checks
 
 import (
+	"crypto/sha1"
 	"encoding/json"
 	"fmt"
 	"math/big"
@@ -61,6 +62,10 @@ type c17RU struct {
 type c17Bad struct {
 	A int
 	C chan int
+}
+type c17BadSelf struct { // refers to itself before the field that cannot be handled
+	Next *c17BadSelf
+	C    chan int
 }
 type c17HoldsBad struct {
 	X int
@@ -140,6 +145,17 @@ func c17Harnesses() []c17Harness {
 			s := builder.NewSession(nil, cfg())
 			return []func() string{buildBody(s, c17Bad{}, badDoc), buildBody(s, c17HoldsBad{}, hdr(ev.EMap(), ev.EStr("x"), ev.EPInt(1), ev.EEnd())), buildBody(s, c17Bad{}, badDoc)}
 		}},
+		{"H9-builder-unsupported-self-referential-type-then-its-pointer", func() []func() string {
+			s := builder.NewSession(nil, cfg())
+			doc := hdr(ev.EMap(), ev.EEnd())
+			first, second := buildBody(s, c17BadSelf{}, doc), buildBody(s, &c17BadSelf{}, doc)
+			return []func() string{func() string { return first() + " then " + second() }, buildBody(s, &c17BadSelf{}, doc)}
+		}},
+		{"H10-iterator-unsupported-self-referential-type-then-its-pointer", func() []func() string {
+			s := iterator.NewSession(nil, cfg())
+			first, second := iterBody(s, c17BadSelf{}), iterBody(s, &c17BadSelf{})
+			return []func() string{func() string { return first() + " then " + second() }, iterBody(s, &c17BadSelf{})}
+		}},
 		{"H7-three-threads-mixed", func() []func() string {
 			s := iterator.NewSession(nil, cfg())
 			b := builder.NewSession(nil, cfg())
@@ -186,15 +202,17 @@ func c17SchedRun(c *fx.Ctx) {
 		h := h
 		alone := c17Alone(h)
 		outcomes := map[string]bool{}
-		schedules := map[string]bool{}
+		schedules := map[[20]byte]bool{} // hashes of operation logs: the logs themselves would not fit in memory at bound 3
 		for b := 0; b <= bound; b++ {
 			ex := &sched.Explorer{S: s, Bodies: h.mk, Bound: b, Take: c.Take}
 			ex.Check = func(x *sched.Exec, schedule []int) {
 				key := strings.Join(x.Log, " ")
-				if schedules[key] {
+				c.Add("executions_checked", 1) // also ticks the stall watchdog while only known operation orders recur
+				kh := sha1.Sum([]byte(key))
+				if schedules[kh] {
 					return
 				}
-				schedules[key] = true
+				schedules[kh] = true
 				c.Add("schedules", 1)
 				c.Add("states", 1)
 				c.Distinct("states", h.name+key)
